@@ -15,6 +15,7 @@ import warnings
 
 import numpy as np
 
+from checks.c16 import form_dims
 from lib import core
 
 FIXTURES = ["test_full_mc_evt_1.rtraw", "test_full_mc_evt_1.dst", "test_full_mc_evt_1.rec", "test_cgem.rtraw", "test_cgem.dst", "test_cgem.rec", "test_mrpc.rtraw"]
@@ -47,9 +48,10 @@ def lazy_vs_eager(chk: core.Check, thorough: bool):
             tree = f["Event"]
             names = [k for k in tree.keys(recursive=True) if isinstance(tree[k].interpretation, rio.Bes3Interpretation)]
         if not thorough:
-            keep = [n for n in names if "Digi" in n][:2] + [n for n in names if "Digi" not in n]
-            idx = sorted(rng.choice(len(keep), size=min(7, len(keep)), replace=False))
-            names = sorted(set([keep[i] for i in idx] + [n for n in names if "mdcDigi" in n or "mdcTrackCol" in n or "emcTrackCol" in n]))
+            keep = [n for n in names if "Digi" not in n]
+            idx = sorted(rng.choice(len(keep), size=min(6, len(keep)), replace=False))
+            # every digi collection (incl. those never written in the file: element type unknown) + a sample of the others
+            names = sorted(set([keep[i] for i in idx] + [n for n in names if "Digi" in n or "mdcTrackCol" in n or "emcTrackCol" in n]))
         # one process reads branches with different matrix sizes one after the other (state must not leak between them)
         for name in names:
             short = name.split("/")[-1]
@@ -88,29 +90,50 @@ def lazy_vs_eager(chk: core.Check, thorough: bool):
                                       {"announced": announced[:300], "computed_type": t_comp[:300], "n": len(comp)}, {"eager_type": t_eager[:300], "n": len(eager)},
                                       "lazy (uproot.dask + compute) has the same type and values as eager array(); the announced type equals the computed type")
                     return
-        # column projection on a multi-branch lazy array
+        # column projection on a multi-branch lazy array: every branch of the group is in turn the only one computed (all others
+        # are projected away), plus one member column of a collection
         with uproot.open(p) as f:
             tree = f["Event"]
             groups = sorted({n.split("/")[0] for n in names if "/" in n})
-        for grp in groups[: (len(groups) if thorough else 1)]:
-            members = [n for n in names if n.startswith(grp + "/")][:3]
-            if len(members) < 2:
+            plain = []
+            for k in tree.keys(recursive=True):
+                try:
+                    if "/" in k and isinstance(tree[k].interpretation, uproot.AsDtype):
+                        plain.append(k)
+                except Exception:
+                    pass                      # branches uproot cannot interpret at all are not part of the property
+        for grp in groups[: (len(groups) if thorough else 2)]:
+            members = [n for n in names if n.startswith(grp + "/")]
+            if not thorough and len(members) > 4:
+                members = [members[i] for i in sorted(rng.choice(len(members), size=4, replace=False))]
+            extra = [k for k in plain if k.startswith(grp + "/")][:1]
+            if len(members) + len(extra) < 2:
                 continue
+            cols = [m.split("/")[-1] for m in members + extra]
             try:
-                d = uproot.dask({str(p): "Event/" + grp}, filter_name=[m.split("/")[-1] for m in members], steps_per_file=2)
-                pick = members[-1].split("/")[-1]
-                comp = d[pick].compute()
-                with uproot.open(p) as f:
-                    eager = f["Event"][members[-1]].array()
-                chk.count(1, key=f"projection-{fn}-{grp}")
-                if str(comp.type) != str(eager.type) or canon(ak.to_list(comp)) != canon(ak.to_list(eager)):
-                    chk.failing_input("column projection of a lazily read event group", {"file": fn, "group": grp, "columns": members, "projected": pick}, str(comp.type)[:300], str(eager.type)[:300], "every column projection applied before compute() yields the eager column")
-                    return
+                d = uproot.dask({str(p): "Event/" + grp}, filter_name=cols, steps_per_file=2)
             except NotImplementedError as ex:
                 unsupported.append(f"{fn}:{grp}: {ex}")
-            except TypeError as ex:
-                # known uproot/dask-awkward limitation: projecting away a NumpyForm with inner_shape (third-party; reported, not judged)
-                chk.coverage.setdefault("projection_unsupported_by_uproot", []).append(f"{fn}:{grp}: {str(ex)[:120]}")
+                continue
+            for m in members + extra:
+                pick = m.split("/")[-1]
+                with uproot.open(p) as f:
+                    eager = f["Event"][m].array()
+                targets = [(pick, d[pick], eager)]
+                if m in members and eager.fields:
+                    fld = eager.fields[int(rng.integers(0, len(eager.fields)))]
+                    targets.append((f"{pick}.{fld}", d[pick][fld], eager[fld]))
+                for label, lazy, want in targets:
+                    chk.count(1, key=f"projection-{fn}-{grp}-{label}")
+                    try:
+                        comp = lazy.compute()
+                        bad = None if (str(comp.type) == str(want.type) and canon(ak.to_list(comp)) == canon(ak.to_list(want))) else f"type {str(comp.type)[:200]}"
+                    except Exception as ex:
+                        bad = f"compute() raised {type(ex).__name__}: {str(ex)[:200]}"
+                    if bad:
+                        chk.failing_input("column projection of a lazily read event group", {"file": fn, "group": grp, "columns_read_lazily": cols, "projected_to": label, "steps_per_file": 2}, bad, str(want.type)[:300],
+                                          "every column projection applied before compute() yields the eager column", finding_key=None)
+                        return
     chk.coverage["branches_without_lazy_support"] = sorted(set(unsupported))[:10]
     return digi_fields
 
@@ -126,15 +149,15 @@ def forms_vs_contents(chk: core.Check):
         c = ak.Array(f.make_awkward_content(raw))
         form = f.make_awkward_form()
         chk.count(1, key=f"symform-{n}")
-        if str(ak.Array(ak.contents.NumpyArray(raw.reshape(-1, n, n))).type.content) != str(c.type.content) or list(form.inner_shape) != [n, n] or str(form.type) != str(c.type.content):
+        if str(ak.Array(ak.contents.NumpyArray(raw.reshape(-1, n, n))).type.content) != str(c.type.content) or form_dims(form) != [n, n] or str(form.type) != str(c.type.content):
             chk.failing_input("Bes3SymMatrixArrayFactory form vs content", {"n": n}, str(form.type), str(c.type.content), "form construction mirrors content construction")
             return
     # two factories of different sizes: the form of the second must not be the first one's
     a = rio.Bes3SymMatrixArrayFactory("a", "d", 15, 5).make_awkward_form()
     b = rio.Bes3SymMatrixArrayFactory("b", "d", 6, 3).make_awkward_form()
     c = rio.Bes3SymMatrixArrayFactory("c", "d", 28, 7).make_awkward_form()
-    if [list(x.inner_shape) for x in (a, b, c)] != [[5, 5], [3, 3], [7, 7]]:
-        chk.failing_input("forms of matrix factories of different sizes created one after the other", {"sizes": [5, 3, 7]}, [list(x.inner_shape) for x in (a, b, c)], [[5, 5], [3, 3], [7, 7]], "the announced type of each branch is its own")
+    if [form_dims(x) for x in (a, b, c)] != [[5, 5], [3, 3], [7, 7]]:
+        chk.failing_input("forms of matrix factories of different sizes created one after the other", {"sizes": [5, 3, 7]}, [form_dims(x) for x in (a, b, c)], [[5, 5], [3, 3], [7, 7]], "the announced type of each branch is its own")
     # TObjArray factory
     elem = PrimitiveFactory("x", "i4") if hasattr(PrimitiveFactory, "__call__") else None
     try:
